@@ -35,6 +35,61 @@ def norm(node_or_text) -> str:
     return re.sub(r"\s+", " ", t).strip()[:160]
 
 
+class _Canon(ast.NodeTransformer):
+    """canonical form of an expression for *identity of a site* (never for semantics): `a > b` is `b < a`, operands of commutative
+    operators, of ==/!= and of and/or are ordered by their text.  A comparison written the other way round, or `x * k` for `k * x`,
+    is the same site - not a new, untriaged one."""
+    def visit_Compare(self, n):
+        self.generic_visit(n)
+        if len(n.ops) == 1:
+            op, a, b = n.ops[0], n.left, n.comparators[0]
+            if isinstance(op, (ast.Gt, ast.GtE)):
+                n.left, n.comparators, n.ops = b, [a], [ast.Lt() if isinstance(op, ast.Gt) else ast.LtE()]
+            elif isinstance(op, (ast.Eq, ast.NotEq)) and ast.unparse(a) > ast.unparse(b):
+                n.left, n.comparators = b, [a]
+        return n
+
+    def visit_BinOp(self, n):
+        self.generic_visit(n)
+        if isinstance(n.op, (ast.Add, ast.Mult, ast.BitAnd, ast.BitOr, ast.BitXor)) and ast.unparse(n.left) > ast.unparse(n.right):
+            n.left, n.right = n.right, n.left
+        return n
+
+    def visit_BoolOp(self, n):
+        self.generic_visit(n)
+        n.values = sorted(n.values, key=ast.unparse)
+        return n
+
+
+def canon_text(text: str) -> str:
+    """canonical form of an already name-abstracted shape text (triage tables and known-finding keys written before canonicalisation)"""
+    try:
+        tree = ast.parse(text, mode="eval").body
+    except SyntaxError:
+        try:
+            mod = ast.parse(text)
+            tree = mod.body[0] if len(mod.body) == 1 else None
+            if tree is not None and norm(tree) != text:
+                tree = None          # not a statement as `norm` prints it (e.g. a keyword `size=1`): opaque text, left alone
+        except SyntaxError:
+            tree = None
+        if tree is None:
+            return text
+    return norm(ast.fix_missing_locations(_Canon().visit(tree)))
+
+
+def canon_key(key: str) -> str:
+    """rule|function|shape[|sig]#n with the shape part canonicalised"""
+    try:
+        head, ordn = key.rsplit("#", 1)
+        parts = head.split("|")
+        if len(parts) >= 3:
+            parts[2] = canon_text(parts[2])
+        return "|".join(parts) + "#" + ordn
+    except ValueError:
+        return key
+
+
 def shape_of(node_or_text) -> str:
     """rename-invariant form of a construct: local variable names replaced by `_` (attribute, callee and keyword names and all
     literals are kept).  Known findings are keyed by this, so renaming a variable does not turn a listed finding into a new one."""
@@ -47,6 +102,10 @@ def shape_of(node_or_text) -> str:
     for x in ast.walk(tree):
         if isinstance(x, ast.Name) and x.id not in ("np", "self", "len", "abs", "all", "any", "R", "MU0"):
             x.id = "_"
+    try:
+        tree = ast.fix_missing_locations(_Canon().visit(tree))
+    except Exception:  # noqa - statements that are not expressions keep their plain form
+        pass
     return norm(tree)
 
 
@@ -133,7 +192,10 @@ class Result:
 def load_known():
     if not os.path.exists(KNOWN_FILE):
         return {"known": [], "fixed": []}
-    return json.load(open(KNOWN_FILE))
+    d = json.load(open(KNOWN_FILE))
+    for k in d.get("known", []):
+        k["key"] = canon_key(k["key"])
+    return d
 
 
 def src_digest(paths):
